@@ -95,8 +95,10 @@ class Complete(Sub):
                          E.weighted((9, qgen.st_store_and_filters(max_filters=5, delegation=True, history=True,
                                                                   regular_only=False)),
                                     (1, qgen.st_conjunction())),
-                         st.lists(st.sampled_from([None, None, 0, 0, 1, 3]), min_size=5, max_size=5)).map(
-            lambda t: dict(t[1], backend=t[0], slack=t[2]))
+                         st.lists(st.sampled_from([None, None, 0, 0, 1, 3]), min_size=5, max_size=5)).flatmap(
+            lambda t: E.weighted((5, st.just(None)), (1, qgen.st_decoy_filters(t[1]["store"]))).map(
+                lambda d: dict(t[1], backend=t[0], slack=t[2],
+                               filters=t[1]["filters"] if d is None else (d + t[1]["filters"])[:5])))
 
     def run_case(self, case):
         return H.run(self._run, case)
@@ -113,7 +115,7 @@ class Complete(Sub):
             if not in_domain(filters):
                 return Result([], False, ["out-of-domain"])
             filters = [dict(f) for f in filters]
-            for i, f in enumerate(filters):
+            for i, f in enumerate(filters[:5]):
                 k = (case.get("slack") or [None] * 5)[i]
                 if k is not None:
                     n_may = sum(1 for e in stored.values() if R.may_match(e, f))
